@@ -122,6 +122,16 @@ CHECKS = {
         "The package initialiser's MustParse is given an empty body in the symbolic run (only IntegerLiteral uses its result).",
    technique="bounded symbolic execution of go/ssa (reflect modelled) + SMT against a functional reference matcher, native replay",
    design="3/C09"),
+ "C05": dict(
+   level="model_checking",
+   text="The real DiskCache code (Put/put/copyFile/putIndexEntry, get/Get, GetFile, GetBytes, fileName, used; encoding/hex, strconv, io interpreted) is executed over an in-memory file system in the engine for every scenario of "
+        "1-2 stores over 2 keys (ids differing only in the last byte) and 3 contents, one fault from {writer dies at any offset of the copy, data file truncated to any shorter length / removed / trailing garbage, "
+        "index entry truncated / removed / replaced by the other key's entry / trailing garbage}, optionally followed by a dying writer or a re-store; every lookup (GetBytes, GetFile + read) must miss or return the bytes "
+        "last stored completely under that key.",
+   note="Scenario space enumerated by forking (solver decides feasibility); contents and ids are concrete choices so SHA-256 is the real function. Crash = source reader dying during the copy or the equivalent post-state; "
+        "sequential single process: concurrent writers/readers/trimmers, arbitrary byte corruption of index entries (symbolic 176-byte entries) and the end-to-end linter clause are outside the claim.",
+   technique="bounded symbolic execution of go/ssa over a modelled file system + SMT feasibility, native replay on a temp dir",
+   design="3/C05"),
 }
 
 NA = {
